@@ -77,6 +77,7 @@ def run_cell(cell, seed):
         inv = pw.DWTInverse(wave=arrs(wc, True) + arrs(wr, True), mode=mode)
         fwd2 = pw.DWTForward(J=J, wave=arrs(wc), mode=mode)
         fwdn = pw.DWTForward(J=J, wave=wc, mode=mode)
+        fwdo = pw.DWTForward(J=J, wave=pywt.Wavelet(wc), mode=mode)
         inv2 = pw.DWTInverse(wave=arrs(wc, True), mode=mode)
     rnd = core.rng_for(seed, PROP, 'k', str(cell))
     may_raise = in_short_reflect(cell)
@@ -120,7 +121,7 @@ def run_cell(cell, seed):
         if kind != 'impulse':
             ref2 = refs.wavedec2(xn, wc, wc, mode, J)
             tol2 = 1e-11 * refs.l1gain(wc) ** (2 * J) * max(float(np.abs(xn).max()), 1e-300)
-            for form, m in (('2-tuple', fwd2), ('name', fwdn)):
+            for form, m in (('2-tuple', fwd2), ('name', fwdn), ('pywt.Wavelet object', fwdo)):
                 case = {'cell': cell, 'dir': 'forward', 'form': form, 'input': kind}
                 ok2, y2 = util.call_lib(m, x)
                 if ok2:
